@@ -106,10 +106,11 @@ def create_signal(db, signal):  # type: (canmatrix.CanMatrix, canmatrix.Signal) 
     if signal.type_label:
         output += signal.type_label + " "
     else:
-        if signal.is_signed:
+        if signal.is_float:
+            # is_signed is True by default, also for float signals: the float type word has to win
+            output += "double " if signal.size > 32 else "float "
+        elif signal.is_signed:
             output += "signed "
-        elif signal.is_float:
-            output += "float "
         else:
             output += "unsigned "
 
